@@ -458,7 +458,7 @@ module Mg = struct
          | "removeid", [tid; h; p] -> apply (ORemove (ni tid, parse_handle h, cid p, false))
          | "assignshared", [h; sp; v] -> apply (OAssignShared (parse_handle h, nat_of_int (reg_shared (int_of_string sp)), z_of_int (int_of_string v)))
          | "removeshared", [h; sp] -> apply (ORemoveShared (parse_handle h, nat_of_int (reg_shared (int_of_string sp))))
-         | "clone", [h] -> apply (OClone (parse_handle h))
+         | ("clone" | "clonemap"), [h] -> apply (OClone (parse_handle h))
          | "build", tid :: h :: rest ->
              let (asg, rem) = parse_build rest in
              if h = "new" then
@@ -687,7 +687,7 @@ module MgS = struct
          | ("remove" | "removeid"), [tid; h; p] -> apply (XoRemove (ni tid, nk h, cid p, opname = "remove" && (int_of_string p < 8 || int_of_string p >= 12)))
          | "assignshared", [h; sp; v] -> apply (XoAssignShared (nk h, nat_of_int (Mg.reg_shared (int_of_string sp)), Mg.z_of_int (int_of_string v)))
          | "removeshared", [h; sp] -> apply (XoRemoveShared (nk h, nat_of_int (Mg.reg_shared (int_of_string sp))))
-         | "clone", [h] -> apply (XoClone (nk h))
+         | ("clone" | "clonemap"), [h] -> apply (XoClone (nk h))
          | "build", tid :: h :: rest ->
              let (asg, rem) = Mg.parse_build rest in
              apply (XoBuild (ni tid, (if h = "new" then None else Some (nk h)), asg, rem))
